@@ -39,7 +39,7 @@ def model_check(ctx):
 
 def scenarios(ctx, shapes, rnd):
     """seeded sample sized by the TLC evaluation budget per family"""
-    budget_ms = (12000 if ctx.quick else 160000)          # CPU time of TLC evaluation per family (4 workers share it)
+    budget_ms = (22000 if ctx.quick else 160000)          # CPU time of TLC evaluation per family (4 workers share it)
     scen = []; blocks = {}
     fam_algs = {}
     for a, (B, L, fam) in ALGS.items(): fam_algs.setdefault(fam, []).append(a)
